@@ -14,7 +14,14 @@ import (
 	"time"
 )
 
-const VerifDir = "/verif"
+// VerifDir is where evidence, replays and known_findings.json live: the directory of the
+// check script (VERIF_DIR), /verif by default.
+var VerifDir = func() string {
+	if d := os.Getenv("VERIF_DIR"); d != "" {
+		return d
+	}
+	return "/verif"
+}()
 
 // Run accumulates what one check observed and turns it into an exit code and
 // an evidence file.
